@@ -24,6 +24,7 @@ import (
 	"runtime/debug"
 	"sort"
 	"strings"
+	"time"
 
 	"github.com/youchainhq/go-youchain/bls"
 	"github.com/youchainhq/go-youchain/common"
@@ -59,8 +60,15 @@ var (
 	blsMgr = bls.NewBlsManager()
 )
 
-func initKeys() {
-	for i := 0; len(keys) < nKeys; i++ {
+func initKeys() { ensureKeys(nKeys) }
+
+var keyCtr = 0
+
+// ensureKeys grows the deterministic key pool to n keys (large look-back sets need thousands of
+// validators with distinct, decodable main and BLS public keys)
+func ensureKeys(n int) {
+	for ; len(keys) < n; keyCtr++ {
+		i := keyCtr
 		d := crypto.Keccak256([]byte(fmt.Sprintf("verif-c01-main-%d", i)))
 		sk, err := crypto.ToECDSA(d)
 		if err != nil {
@@ -68,6 +76,19 @@ func initKeys() {
 		}
 		vsk, err := secp256k1VRF.NewVRFSigner(sk)
 		if err != nil {
+			continue
+		}
+		if len(keys) >= nKeys {
+			// filler validators never sign: their BLS public key is the previous one plus a fixed key
+			// (a point addition instead of a scalar multiplication), distinct and decodable
+			prev := keys[len(keys)-1].blsPk
+			bpk, err := blsMgr.AggregatePublic([]bls.PublicKey{prev, keys[0].blsPk})
+			if err != nil {
+				panic(err)
+			}
+			cp := bpk.Compress()
+			keys = append(keys, &keyPair{sk: sk, vrfSk: vsk, pub: crypto.CompressPubkey(&sk.PublicKey),
+				addr: crypto.PubkeyToAddress(sk.PublicKey), blsPk: bpk, blsPub: cp[:]})
 			continue
 		}
 		b := crypto.Keccak256([]byte(fmt.Sprintf("verif-c01-bls-%d", i)))
@@ -486,6 +507,15 @@ func malformedBls(form, salt int) []byte {
 // buildLB builds the reader and rewrites lb.Vals into the order of
 // state.Validators (stake-descending), which is the order voter indexes use.
 func buildLB(lb *LBS) (*vldStub, uint64) {
+	for _, s := range lb.Vals {
+		if s.Key >= len(keys) || s.Bls >= len(keys) {
+			m := s.Key
+			if s.Bls > m {
+				m = s.Bls
+			}
+			ensureKeys(m + 1)
+		}
+	}
 	type pair struct {
 		v *state.Validator
 		s ValS
@@ -1359,6 +1389,8 @@ func oracleAccept(c *Case, b *built) []string {
 
 type gen struct {
 	forceCert bool
+	plain     bool // an honest header, one vote short of the quorum, no forgery
+	bigNo     int
 	r         *vf.Rng
 	variant   string
 }
@@ -1884,7 +1916,11 @@ func (g *gen) one(res *vf.Result) Case {
 	// weight exactly the quorum / exactly one below it
 	pickVotes := func(all []VoteS, q uint64) ([]VoteS, *VoteS, string) {
 		g.shuffleVotes(all)
-		switch r.Intn(8) {
+		mode := r.Intn(8)
+		if g.plain {
+			mode = 7 // one vote short of the quorum, nothing else wrong
+		}
+		switch mode {
 		case 0, 1:
 			return all, nil, "all"
 		case 2:
@@ -1917,7 +1953,7 @@ func (g *gen) one(res *vf.Result) Case {
 	c.H.Val.Agg = aggOf(c.LB, c.H.Val.Votes, cs.Round, index)
 	res.Count("base:precommits_" + mode)
 	attacked := false
-	if r.Chance(9) {
+	if !g.plain && r.Chance(9) {
 		// a coalition (about half of the entitled validators, each really signing) whose members each
 		// present the encoding of their VRF point that gives them the largest draw
 		all := grindVotes(c.LB, total, c.SeedH.Seed, stepPrecommit, index, c.CP.VT)
@@ -1929,7 +1965,7 @@ func (g *gen) one(res *vf.Result) Case {
 		attacked = true
 		dropped = nil
 	}
-	if dropped != nil && r.Chance(75) {
+	if !g.plain && dropped != nil && r.Chance(75) {
 		g.readd(&c, c.LB, &c.H.Val, *dropped, qv, c.SeedH.Seed, res)
 		attacked = true
 	}
@@ -1941,14 +1977,14 @@ func (g *gen) one(res *vf.Result) Case {
 		c.H.Cert.Votes = votes
 		c.H.Cert.Agg = aggOf(c.CertLB, c.H.Cert.Votes, cs.Round, index)
 		res.Count("base:certificates_" + mode)
-		if dropped != nil && r.Chance(75) {
+		if !g.plain && dropped != nil && r.Chance(75) {
 			g.readd(&c, c.CertLB, &c.H.Cert, *dropped, qc, c.CertH.Seed, res)
 			attacked = true
 		}
 	}
 	// forgeries
 	nf := 0
-	if attacked {
+	if attacked || g.plain {
 		return c
 	}
 	if certRound && r.Chance(6) { // an otherwise honest certificate-round header whose look-back header is unusable
@@ -2284,7 +2320,11 @@ func runGen(seed uint64, n int, outDir, corpusDir, variant string) {
 	emit := func(c Case) {
 		c.Variant = variant
 		c.Verdict, c.Err = 0, ""
+		t0 := time.Now()
 		b := observe(&c)
+		if os.Getenv("C01_TIMING") != "" && len(c.LB.Vals) > 1000 {
+			fmt.Fprintln(os.Stderr, "observe big", time.Since(t0), "votes", len(c.H.Val.Votes), len(c.H.Cert.Votes))
+		}
 		if count > 0 {
 			sb.WriteString(";\n")
 		}
@@ -2366,7 +2406,12 @@ func runGen(seed uint64, n int, outDir, corpusDir, variant string) {
 		emitH(hc)
 		res.Count("corpus")
 	}
+	gen0 := count
 	for count < n {
+		if variant == "fixed" && (count-gen0)%170 == 60 {
+			emit(g.bigDup(res)) // a handful per run: look-back sets beyond the cache capacities
+			continue
+		}
 		if variant == "fixed" && r.Chance(40) {
 			emitH(g.hcase(res))
 		} else {
@@ -2479,6 +2524,9 @@ func runTables(out string) {
 	sb.WriteString("(* (version, StakeLookBack, SeedLookBack) of every version of the three nets *)\n")
 	sb.WriteString("Definition go_lookbacks : list (N * N * N) := " + vf.List(lbs) + ".\n")
 	sb.WriteString(fmt.Sprintf("Definition go_protocol_round_back : N := %d.\n", core.VerifC01ProtocolRoundBack()))
+	cs := ucon.VerifC01CacheSizes(nil)
+	sb.WriteString("(* capacities of the LRU caches on the vote verification path: BlsVerifier.blsPubKeyCache, blsSigCache, vrfPkCache *)\n")
+	sb.WriteString(fmt.Sprintf("Definition go_cache_sizes : list N := [%d; %d; %d].\n", cs[0], cs[1], cs[2]))
 	sb.WriteString(fmt.Sprintf("Definition go_cht_frequency : N := %d.\n", params.ACoCHTFrequency))
 	sb.WriteString(fmt.Sprintf("Definition go_steps : N * N * N := (%d, %d, %d).\n", ucon.UConStepProposal, uint32(ucon.Precommit), uint32(ucon.Certificate)))
 	vf.WriteIfChanged(out, sb.String())
